@@ -59,7 +59,7 @@ def validate(ctx, recs, what):
     return bad
 
 
-def run_jobs(ctx, jobs, part, heavy=False, ignore=(), nontrivial=None, min_chunk=3):
+def run_jobs(ctx, jobs, part, heavy=False, ignore=(), nontrivial=None, min_chunk=3, extra_check=None):
     """jobs: list of worker items (adapter, cfg, seed, history).  Records, validates, reports violations."""
     res = pool_map("proto", "run_history", jobs, min_chunk=min_chunk, timeout=3000)
     recs, owners = [], []
@@ -69,6 +69,10 @@ def run_jobs(ctx, jobs, part, heavy=False, ignore=(), nontrivial=None, min_chunk
         if r is None or "crash" in r or "exc" in r:
             ctx.violation(dict(ident, kind="crash-or-exception", exc=(r or {}).get("exc")), {"job": j, "result": r})
             continue
+        if j.get("idmap"):       # items that are encodings of the same abstract object share a memo key
+            mp = {int(k): v for k, v in j["idmap"].items()}
+            for st in r["steps"]:
+                st["c"] = dict(st["c"], b=[mp.get(x, x) for x in st["c"]["b"]])
         recs.append(r)
         owners.append((j, ident))
     if not recs:
@@ -82,6 +86,8 @@ def run_jobs(ctx, jobs, part, heavy=False, ignore=(), nontrivial=None, min_chunk
             ctx.violation(dict(ident, kind="protocol", clauses=clauses, first_step=first,
                                exc=[s["o"].get("exc") for s in steps if s["o"].get("exc")][:2]),
                           {"job": j, "recorded": recs[t - 1], "violated": bad[t]})
+        elif extra_check and extra_check(j, recs[t - 1]):
+            ctx.violation(dict(ident, kind="observation", what=extra_check(j, recs[t - 1])), {"job": j, "recorded": recs[t - 1]})
         else:
             ctx.traces += 1
             ctx.count(part + "_histories_accepted")
